@@ -678,7 +678,11 @@ def rules(tier):
             # C14-db: under --all_lower the restore walk stops at every capitalisation position
             ('C14.R19', _shared_rule('c08', 'r24_restore_visits_every_position')),
             # mutation sweep: replacements[0] += item
-            ('C14.R20', _shared_rule('c14', 'r20_structure_tokeniser'))]
+            ('C14.R20', _shared_rule('c14', 'r20_structure_tokeniser')),
+            # C14-ea: the saved position is the base-structure probability
+            ('C14.R21', _shared_rule('c08', 'r4_saved_position')),
+            # C14-eb: --all_lower also lower-cases the keyboard-walk terminals
+            ('C14.R22', _shared_rule('plumbing', 'terminals_stored_as_read'))]
 
 
 META = {
